@@ -64,6 +64,18 @@ def hygiene():
                 src = re.sub(r'"[^"]*"', '""', src)
                 for m in FORBIDDEN.finditer(src):
                     bad.append(f"{os.path.relpath(p, VERIF)}: {m.group(0)}")
+                # a Variable / Hypothesis / Context outside a Section declares an axiom
+                stack = []
+                for m in re.finditer(r"(?m)^\s*(Section|Module Type|Module|End|Variables?|Hypothes[ie]s|Context)\b\s*([\w']*)", src):
+                    kw, nm = m.group(1), m.group(2)
+                    if kw == "Section": stack.append(("S", nm))
+                    elif kw.startswith("Module"):
+                        line = src[m.start():src.find(".", m.start())]
+                        if ":=" not in line: stack.append(("M", nm))
+                    elif kw == "End":
+                        if stack: stack.pop()
+                    elif not any(k == "S" for k, _ in stack):
+                        bad.append(f"{os.path.relpath(p, VERIF)}: {kw} outside a Section")
     return bad
 
 
